@@ -334,15 +334,19 @@ impl Ctx {
     /// a result that depends on what the same thread computed just before (a memo keyed on part of the operands, a scratch
     /// buffer left behind) would go unnoticed.  For evenly spaced base cases i and, for every coordinate p of the cross
     /// product, the neighbour j that differs from i in coordinate p only, the call history i, j, i runs on a fresh thread;
-    /// every evaluation must pass as it did alone.  The number of histories is bounded by a share of the sweep's own cost.
+    /// every evaluation must pass as it did alone.  The number of histories depends on the size of the sweep only.
     fn neighbour_histories<F, D>(&self, sub: &str, hsub: &str, n: u64, rad: &[u64], main_wall: f64, describe: &D, f: &F)
     where
         F: Fn(u64) -> CaseResult + Sync,
         D: Fn(u64) -> Value + Sync,
     {
-        let per_case_cpu = (main_wall * self.threads as f64 / n as f64).max(2e-5);
-        let budget_cpu = (0.3 * main_wall * self.threads as f64 + 0.05 * self.threads as f64).min(2.0 * self.threads as f64);
-        let max_h = ((budget_cpu / (3.0 * per_case_cpu)) as u64).max(8).min(384);
+        // the number of histories is a function of the size of the sweep only (so that the same cases are chosen on every run):
+        // one per 64 cases, at least 8, at most 384; a wall-clock cap only guards against pathological cost and is reported
+        let _ = main_wall;
+        let max_h = (n / 64).max(8).min(384);
+        let t_hist = Instant::now();
+        let wall_cap = 45.0;
+        let capped = std::sync::atomic::AtomicBool::new(false);
         let digits: Vec<usize> = (0..rad.len()).filter(|&p| rad[p] > 1).collect();
         if max_h == 0 || digits.is_empty() {
             return;
@@ -379,6 +383,10 @@ impl Ctx {
                     if k >= pairs.len() {
                         break;
                     }
+                    if t_hist.elapsed().as_secs_f64() > wall_cap {
+                        capped.store(true, Ordering::Relaxed);
+                        break;
+                    }
                     let (i, j) = pairs[k];
                     if let Some((pos, r)) = Self::one_history(i, j, f) {
                         found.lock().unwrap().push((i, j, pos, r));
@@ -386,6 +394,9 @@ impl Ctx {
                 });
             }
         });
+        if capped.load(Ordering::Relaxed) {
+            self.cap_hit(format!("{}: histories of neighbouring cases stopped after {} s", sub, wall_cap));
+        }
         let mut found = found.into_inner().unwrap();
         found.sort_by_key(|x| (x.0, x.1));
         self.count("histories_of_neighbouring_cases", 3 * pairs.len() as u64, 3 * pairs.len() as u64, false, Some(json!({"what": "for base cases i of every sweep and each coordinate p, the neighbour j differing in coordinate p only: the calls i, j, i on a fresh thread must pass as they do alone", "first_sweep": sub, "histories_in_that_sweep": pairs.len()})));
